@@ -84,6 +84,15 @@ def run(res, ctx):
             st["original-rejected"] += 1
             continue
         st["global" if glob else "per-affiliate"] += 1
+        odd_lot_ahead = any(r["act"] == "Split" and "." not in r["split"][0] + r["split"][1]
+                            and Fraction(r["split"][0]) < Fraction(r["split"][1]) for r in x["case"]["rows"][k:]) \
+            if "case" in x else False
+        if sb["stop"][0] != 0 and odd_lot_ahead and "non-integer share balance" in (sb.get("msg") or ""):
+            # a later whole-number-only reverse split: restating the shares before it can leave an odd
+            # lot, which the tool refuses on purpose (C04 lists it as an impossible history; the
+            # theorem C15_inserted_split excludes such rows: no_int_only) - outside the statement
+            st["restated-history-has-odd-lot"] += 1
+            continue
         if sb["stop"][0] != 0:
             res.violation("failing-input", "history accepted, but rejected after inserting a %s-for-%s split and restating later rows: %s" % (ratio[0], ratio[1], sb.get("msg")),
                           {"input_original": x["hc"], "input_with_split": y["hc"], "position": k})
